@@ -21,6 +21,7 @@ pub fn def() -> PropDef {
         block: 1,
         flavours: &["tokio"],
         outcome: None,
+        extra_profiles: &["C02", "C03", "C04", "C05", "C06", "C07", "C10", "C11", "C12", "C13", "C16", "C17"],
     }
 }
 
@@ -138,6 +139,9 @@ pub fn check(v: &View) -> Vec<Violation> {
         let Some(aidx) = a.aidx else { continue };
         let spec = v.sc.spec_of(aidx);
         let cbs: Vec<&CbRec> = v.cbs_of(a).collect();
+        // operations are attributed to actors by scenario index: only meaningful if that index
+        // was spawned exactly once (default service instances may be respawned)
+        let unique = v.actors_of(aidx).len() == 1 && aidx < AIDX_SVC_A;
 
         // (a) callbacks of one actor never overlap (an invocation abandoned by a handler timeout
         //     has no exit; that is C11's business and only possible with a timeout configured)
@@ -145,7 +149,7 @@ pub fn check(v: &View) -> Vec<Violation> {
             let (p, n) = (w[0], w[1]);
             let overlap = match p.exit {
                 Some(x) => n.enter < x,
-                None => spec.timeout.is_none(),
+                None => spec.effective_timeout().is_none(),
             };
             if overlap {
                 out.push(violation(
@@ -158,9 +162,9 @@ pub fn check(v: &View) -> Vec<Violation> {
         }
 
         // (b) at most once
-        let mut seen: BTreeMap<(u64, u64), u64> = BTreeMap::new();
+        let mut seen: BTreeMap<(u64, u64, u32), u64> = BTreeMap::new();
         for c in cbs.iter().filter(|c| c.cb.is_handler() && c.cb != Cb::Unit) {
-            if let Some(prev) = seen.insert((c.cb.code(), c.id), c.enter) {
+            if let Some(prev) = seen.insert((c.cb.code(), c.id, 0), c.enter) {
                 out.push(violation(
                     P,
                     "handled-twice",
@@ -201,7 +205,7 @@ pub fn check(v: &View) -> Vec<Violation> {
                 ));
             }
         }
-        for o in v.ops.iter().filter(|o| o.target == Some(aidx)) {
+        for o in v.ops.iter().filter(|o| o.target == Some(aidx) && unique) {
             if let Some(Res::Joined(Some(j))) = o.res {
                 let ent = entered.get(&j.inst).cloned().unwrap_or_default();
                 let ex: Vec<u64> = exited.get(&j.inst).map(|e| e.iter().map(|(_, id)| *id).collect()).unwrap_or_default();
@@ -218,6 +222,9 @@ pub fn check(v: &View) -> Vec<Violation> {
         }
 
         // (c) real-time order between submissions
+        if !unique {
+            continue;
+        }
         let by_id: BTreeMap<u64, &CbRec> =
             cbs.iter().filter(|c| matches!(c.cb, Cb::Msg | Cb::Ask)).map(|c| (c.id, *c)).collect();
         let subs: Vec<&OpRec> = v
@@ -236,7 +243,7 @@ pub fn check(v: &View) -> Vec<Violation> {
                         // a ping that returned Ok after m1 was accepted implies m1 was handled before
                         if matches!(m2.res, Some(Res::Ok)) && accepted(m1) {
                             let done = h1.and_then(|h| h.exit).is_some_and(|x| x < m2.end.unwrap());
-                            let abandoned_by_timeout = spec.timeout.is_some() && h1.is_some();
+                            let abandoned_by_timeout = spec.effective_timeout().is_some() && h1.is_some();
                             if !done && !abandoned_by_timeout {
                                 out.push(violation(
                                     P,
